@@ -203,24 +203,40 @@ def check_derivative(ctx):
             problems.append('propensities computed after the sum')
         se = symx.SymExec(None, None)
         s_ = src(outer[0].target)
-        g = ast.FunctionDef(name='g', args=ast.arguments(posonlyargs=[], args=[], kwonlyargs=[], kw_defaults=[], defaults=[]), body=outer[0].body,
-                            decorator_list=[], type_params=[])
+        g = ast.FunctionDef(name='g', args=ast.arguments(posonlyargs=[], args=[], kwonlyargs=[], kw_defaults=[], defaults=[]),
+                            body=util.structure_continues(outer[0].body), decorator_list=[], type_params=[])
         S = sp.Symbol('s', integer=True, nonnegative=True)
         try:
             final, _ = se.run_env(g, {s_: S})
             val = final.get('%s[%s]' % (dx, s_))
             from .c01 import instantiate
+            if val is None:
+                raise AnalysisError('no store into %s[%s] found' % (dx, s_))
             sz = [q for q in val.atoms(sp.Function) if 'size' in str(q.func)]
-            got = instantiate(val, {q: sp.Integer(2) for q in sz})
-            exp = sum(symx.posfun('prop')(symx.posfun('self.S_indices[%s]' % s_)(sp.Integer(j_))) * symx.posfun('self.S_values[%s]' % s_)(sp.Integer(j_))
-                      for j_ in range(2))
-            ok = sp.simplify(got - exp) == 0
-            if not ok:
-                problems.append('dxdt[s] is %s, expected sum_j prop[S_indices[s][j]] * S_values[s][j]' % val)
+            # rows of every length, the empty row (a species no reaction changes: the derivative is the empty sum 0) included
+            for n_ in (0, 1, 2, 3):
+                got = instantiate(val, {q: sp.Integer(n_) for q in sz})
+                if isinstance(got, sp.Piecewise):
+                    got = sp.piecewise_fold(got).doit()
+                exp = sum((symx.posfun('prop')(symx.posfun('self.S_indices[%s]' % s_)(sp.Integer(j_))) * symx.posfun('self.S_values[%s]' % s_)(sp.Integer(j_))
+                           for j_ in range(n_)), sp.Integer(0))
+                if sp.simplify(got - exp) != 0:
+                    problems.append('for a row with %d entries dxdt[s] is %s, expected sum_j prop[S_indices[s][j]] * S_values[s][j] = %s (extracted: %s)'
+                                    % (n_, got, exp, val))
+                    break
         except AnalysisError as e:
             problems.append(str(e))
     ctx.ob('R3.4-derivative', 'calculate_deterministic_derivative', not problems, ctx.loc('simulator', f),
            'dxdt[s] = sum_j prop[S_indices[s][j]] * S_values[s][j], with prop computed at (x, t) first', '; '.join(problems))
+    # the derivative a caller of the Python API is given is that same function: the wrapper only forwards its arguments
+    w = ctx.fn('simulator:CSimInterface.py_calculate_deterministic_derivative')
+    ok, detail = util.delegation(w, 'calculate_deterministic_derivative')
+    ctx.ob('R3.4-derivative', 'py_calculate_deterministic_derivative', ok, ctx.loc('simulator', w),
+           'the Python-level derivative is the interface\'s calculate_deterministic_derivative at the given (x, dx, t), nothing else', detail)
+    for cls_ in ('ModelCSimInterface', 'SafeModelCSimInterface'):
+        dc, m_ = ctx.prog.resolve_method(cls_, 'py_calculate_deterministic_derivative')
+        ctx.ob('R3.4-derivative', 'py_calculate_deterministic_derivative/%s' % cls_, dc == 'CSimInterface', ctx.loc('simulator', m_) if m_ is not None else '',
+               'the model interfaces do not replace the forwarding wrapper', 'resolved in %s' % dc)
 
 
 def check_init(ctx):
